@@ -92,6 +92,17 @@ fn families(z: &crate::zoo::ZooLang, sizes: &[usize]) -> Vec<Vec<u8>> {
             _ => {}
         }
     }
+    // inline-leaf limits of the row and look-ahead fields (4 bits each): paddings of 14..18 rows, look-aheads of 14..18 bytes
+    for n in 14..=18usize {
+        match z.name {
+            "stmts" => { out.push(format!("a;{}b;", "\n".repeat(n)).into_bytes()); out.push(format!("{}a;", "\n".repeat(n)).into_bytes()); out.push(format!("{{ a;{} b; }}", "\n".repeat(n)).into_bytes()); }
+            "arith" => { out.push(format!("1{}+{}2", "\n".repeat(n), "\n".repeat(n)).into_bytes()); }
+            "jsonish" => { out.push(format!("[1,{}2]", "\n".repeat(n)).into_bytes()); }
+            "lookfar" => { out.push(format!("a-{}", "b".repeat(n)).into_bytes()); out.push(format!("a-{} c", "b".repeat(n)).into_bytes()); out.push(format!("a{}bc", "\n".repeat(n)).into_bytes()); }
+            "pstring" => { out.push(format!("a{}%(b)", "\n".repeat(n)).into_bytes()); }
+            _ => {}
+        }
+    }
     // inline-leaf limits: tokens and paddings of 253..258 bytes
     for n in 253..=258usize {
         match z.name {
